@@ -70,6 +70,7 @@ type Goroutine struct {
 	resumed      bool
 	resumeStep   int
 	timerPending bool
+	skipOnce     bool // pre-empted right AFTER the effect of a release operation: on resume that instruction is a no-op
 }
 
 type State struct {
@@ -99,6 +100,7 @@ type State struct {
 	redirects map[string]*FuncV
 	switchesLeft int
 	preemptSync  bool
+	pendingYield bool // a release operation just took effect: offer a context switch before the next instruction
 	noTimers     bool
 	mvars  []*Term
 	model  *Model
@@ -208,6 +210,7 @@ func (s *State) clone(e *Engine) *State {
 	}
 	n.redirects = s.redirects
 	n.switchesLeft, n.preemptSync, n.noTimers = s.switchesLeft, s.preemptSync, s.noTimers
+	n.pendingYield = s.pendingYield
 	n.nd = s.nd[:len(s.nd):len(s.nd)]
 	n.mvars = s.mvars[:len(s.mvars):len(s.mvars)]
 	n.model = s.model
@@ -215,7 +218,7 @@ func (s *State) clone(e *Engine) *State {
 	n.trace = s.trace[:len(s.trace):len(s.trace)]
 	n.gs = make([]*Goroutine, len(s.gs))
 	for i, g := range s.gs {
-		ng := &Goroutine{id: g.id, done: g.done, wait: g.wait, resumed: g.resumed, resumeStep: g.resumeStep, timerPending: g.timerPending}
+		ng := &Goroutine{id: g.id, done: g.done, wait: g.wait, resumed: g.resumed, resumeStep: g.resumeStep, timerPending: g.timerPending, skipOnce: g.skipOnce}
 		ng.frames = make([]*Frame, len(g.frames))
 		for j, f := range g.frames {
 			nf := *f
